@@ -293,4 +293,21 @@ def rmLoopB (h : Nat) : Nat → Chain → Nat → Run
 
 def rmToB (c : Chain) (h : Nat) (k : Nat) : Run := rmLoopB h (topHeight c) c k
 
+/-! ### Crash points during the very first start-up (the genesis groups being saved) -/
+
+/-- The genesis loop of `initGroupChain` under a write budget. -/
+def saveAllB : List Group → Chain → Nat → Run
+  | [], c, k => .done c k
+  | g :: t, c, k =>
+    match saveB c g k with
+    | .done c' k' => saveAllB t c' k'
+    | r => r
+
+/-- A (re-)run of the genesis branch on store `d` with budget `k`; `none` when `d` already has
+    a last-group pointer (start-up then takes the other branch and writes nothing). -/
+def firstBootB (d : Store) (m : List Bytes) (gs : List Group) (k : Nat) : Option Run :=
+  match sget d curKey, gs with
+  | none, g0 :: _ => some (saveAllB gs { disk := d, count := 0, last := g0, mirror := m } k)
+  | _, _ => none
+
 end Rangers.Model.GroupChain
